@@ -32,6 +32,46 @@ func c32NoReadAfterShort(fn *ssa.Function, e [2]*ssa.BasicBlock, rf ssa.Instruct
 	if !(engine.PathQuery{Fn: fn, FromBlk: e[1]}).Reaches(rf) {
 		return true
 	}
+	// knownTrue: on every way from the short-read edge into L's block (not passing
+	// through that block) the incoming value of the bool phi L is the constant
+	// true, or another phi that is known true the same way (a flag tested at the
+	// loop header, for !last {…}, receives the flag merged in the body).
+	var knownTrue func(L *ssa.Phi, depth int) bool
+	knownTrue = func(L *ssa.Phi, depth int) bool {
+		b := L.Block()
+		reach := map[*ssa.BasicBlock]bool{e[1]: true}
+		work := []*ssa.BasicBlock{e[1]}
+		for len(work) > 0 {
+			x := work[len(work)-1]
+			work = work[:len(work)-1]
+			if x == b {
+				continue
+			}
+			for _, s := range x.Succs {
+				if !reach[s] {
+					reach[s] = true
+					work = append(work, s)
+				}
+			}
+		}
+		if e[1] == b {
+			reach = map[*ssa.BasicBlock]bool{}
+		}
+		n := 0
+		for i, p := range b.Preds {
+			if reach[p] && p != b || (e[1] == b && p == e[0]) {
+				n++
+				if v, isK := engine.ConstBool(L.Edges[i]); isK && v {
+					continue
+				}
+				if inner, isPhi := L.Edges[i].(*ssa.Phi); isPhi && depth < 3 && inner != L && knownTrue(inner, depth+1) {
+					continue
+				}
+				return false
+			}
+		}
+		return n > 0
+	}
 	for _, b := range fn.Blocks {
 		for _, in := range b.Instrs {
 			L, ok := in.(*ssa.Phi)
@@ -41,40 +81,7 @@ func c32NoReadAfterShort(fn *ssa.Function, e [2]*ssa.BasicBlock, rf ssa.Instruct
 			if bt, isB := L.Type().Underlying().(*types.Basic); !isB || bt.Kind() != types.Bool {
 				continue
 			}
-			// blocks reachable from e[1] without entering b
-			reach := map[*ssa.BasicBlock]bool{e[1]: true}
-			work := []*ssa.BasicBlock{e[1]}
-			for len(work) > 0 {
-				x := work[len(work)-1]
-				work = work[:len(work)-1]
-				if x == b {
-					continue
-				}
-				for _, s := range x.Succs {
-					if !reach[s] {
-						reach[s] = true
-						work = append(work, s)
-					}
-				}
-			}
-			if e[1] == b {
-				// the edge itself enters L's block
-				reach = map[*ssa.BasicBlock]bool{}
-			}
-			n, good := 0, true
-			for i, p := range b.Preds {
-				if reach[p] && p != b || (e[1] == b && p == e[0]) {
-					n++
-					if v, isK := engine.ConstBool(L.Edges[i]); !isK || !v {
-						good = false
-					}
-				}
-			}
-			if n == 0 || !good {
-				continue
-			}
-			// L's block must not repeat without a new read
-			if reachesSelf(b, rf) {
+			if !knownTrue(L, 0) || reachesSelf(b, rf) {
 				continue
 			}
 			cut := engine.EdgesWhere(fn, func(k engine.Cmp) bool {
@@ -88,6 +95,7 @@ func c32NoReadAfterShort(fn *ssa.Function, e [2]*ssa.BasicBlock, rf ssa.Instruct
 	}
 	return false
 }
+
 
 // reachesSelf: block b can be re-entered without executing rf.
 func reachesSelf(b *ssa.BasicBlock, rf ssa.Instruction) bool {
@@ -562,12 +570,21 @@ func c32(c *engine.Ctx) {
 						okG = okG && k == def
 						continue
 					}
+					// prev * 2, 2 * prev, prev << 1, prev + prev
 					b, isB := e.(*ssa.BinOp)
-					kk, isK := int64(0), false
+					dbl := false
 					if isB {
-						kk, isK = engine.ConstInt(b.Y)
+						kx, isKx := engine.ConstInt(b.X)
+						ky, isKy := engine.ConstInt(b.Y)
+						switch {
+						case b.Op == token.MUL && b.X == ssa.Value(phi) && isKy && ky == 2,
+							b.Op == token.MUL && b.Y == ssa.Value(phi) && isKx && kx == 2,
+							b.Op == token.SHL && b.X == ssa.Value(phi) && isKy && ky == 1,
+							b.Op == token.ADD && b.X == ssa.Value(phi) && b.Y == ssa.Value(phi):
+							dbl = true
+						}
 					}
-					okG = okG && isB && b.Op == token.MUL && b.X == ssa.Value(phi) && isK && kk == 2
+					okG = okG && dbl
 				}
 			}
 			c.Check(okG && def == 128*1024 && maxp%def == 0, "C32.R6", "computePartSize/doubling-from-default", r.Pos(), "the size must start at defaultPartSize (128 KiB) and double, so that it stays a divisor of the maximum part size")
@@ -636,6 +653,9 @@ func c32(c *engine.Ctx) {
 			} else if b, isB := v.(*ssa.BinOp); isB && b.Op == token.ADD {
 				if k, isK := engine.ConstInt(b.Y); isK && k == 1 && isQuo(res.Resolve(b.X)) {
 					got = "q+1"
+				}
+				if k, isK := engine.ConstInt(b.X); isK && k == 1 && isQuo(res.Resolve(b.Y)) {
+					got = "q+1" // 1 + q
 				}
 			}
 			if got != cl.want {
